@@ -521,8 +521,8 @@ def exec (cfg : Cfg) (st : St) : Act → St × List Ob × List Act
         | .error kd => (st, [], [.unawareDone u (.err kd)])
         | .ok (st1, b, obs1) =>
           let what := match x.kind with | .metadata ts => ReqWhat.metadata ts | .coord g => ReqWhat.coord g
-          let (st2, k, obs2, acts) := makeRequest cfg st1 b (.unaware u rest) true what none
-          (setUnaware st2 u (fun y => { y with st := .onBroker k }), obs1 ++ obs2, acts)
+          let mr := makeRequest cfg st1 b (.unaware u rest) true what none
+          (setUnaware mr.1 u (fun y => { y with st := .onBroker mr.2.1 }), obs1 ++ mr.2.2.1, mr.2.2.2)
   | .bootNext u hosts =>
     if st.closing then (st, [], [.unawareDone u (.err .afkakCancelled)]) else
     match hosts with
@@ -649,10 +649,10 @@ def exec (cfg : Cfg) (st : St) : Act → St × List Ob × List Act
           match getBrokerClient st sl.node with
           | .error kd => (st, [], [.sendFail s kd])
           | .ok (st1, b, obs1) =>
-            let (st2, k, obs2, acts) := makeRequest cfg st1 b (.slot s j) x.expect (.payloads sl.idxs (sl.idxs.filterMap (fun i => x.keys[i]?))) none
-            (setSend st2 s (fun y => match y.phase with
-              | .inflight sls => { y with phase := .inflight ((List.range sls.length).zip sls |>.map (fun e => if e.1 == j then { e.2 with k := some k } else e.2)) }
-              | _ => y), obs1 ++ obs2, acts)
+            let mr := makeRequest cfg st1 b (.slot s j) x.expect (.payloads sl.idxs (sl.idxs.filterMap (fun i => x.keys[i]?))) none
+            (setSend mr.1 s (fun y => match y.phase with
+              | .inflight sls => { y with phase := .inflight ((List.range sls.length).zip sls |>.map (fun e => if e.1 == j then { e.2 with k := some mr.2.1 } else e.2)) }
+              | _ => y), obs1 ++ mr.2.2.1, mr.2.2.2)
       | _ => (st, [], [])   -- the send failed while issuing: the generator is gone
   | .sendCheck s =>
     match sendGet st s with
@@ -693,8 +693,8 @@ def exec (cfg : Cfg) (st : St) : Act → St × List Ob × List Act
         match getBrokerClient st bm.nodeId with
         | .error kd => (st, [], [.srtcFail r kd])
         | .ok (st1, b, obs1) =>
-          let (st2, k, obs2, acts) := makeRequest cfg st1 b (.srtc r) true (.group x.g) x.minTimeout
-          (setSrtc st2 r (fun y => { y with phase := .inflight k }), obs1 ++ obs2, acts)
+          let mr := makeRequest cfg st1 b (.srtc r) true (.group x.g) x.minTimeout
+          (setSrtc mr.1 r (fun y => { y with phase := .inflight mr.2.1 }), obs1 ++ mr.2.2.1, mr.2.2.2)
   | .srtcDone r res =>
     match srtcGet st r with
     | none => (st, [.badOp "srtcDone"], [])
